@@ -927,6 +927,13 @@ func (e *specEnv) goCall(obj *types.Func, recv *sval, argExprs []ast.Expr) sval 
 	if reach == "" {
 		reach = sTrue
 	}
+	if ct := c.eng.contracts[fn]; ct != nil && ct.Trusted {
+		// a trusted function means what its contract says, in specifications as in code
+		sf := c.newFrame(fn, 1, nil)
+		sf.specMode = true
+		res, _ := sf.applyContract(ct, fn, args, e.st, reach, nil)
+		return sval{res, resT, ""}
+	}
 	if m := lookupModel(fn); m != nil {
 		res, _, ok := m.apply(fr, fn, args, e.st, reach, nil)
 		if ok {
